@@ -48,6 +48,7 @@ def gen_case(rng, quick=True):
         ref = None
     case = dict(strat=strat, a=a, b=b, comps=comps, ref=ref, norm=rng.choice([0, 0, 1, 2]), boundary=True, lmin=1, lmax=2,
                 seed=rng.randrange(1 << 30), errcalc='lib' if rng.random() < 0.5 else ['scripted', rng.randrange(1 << 20)])
+    case['reeval'] = rng.random() < 0.45        # performSpatiallyAdaptiv(reevaluate_at_end=True): evaluate_final_combi at every stop
     if strat == 'dw':
         case.update(version=rng.choice([6, 6, 3, 7]), rebalancing=rng.random() < 0.6, boundary=rng.random() < 0.85)
         case['probe_max'] = rng.choice([35, 50, 70]) if dim == 2 else rng.choice([120, 180])
@@ -61,6 +62,7 @@ def gen_case(rng, quick=True):
 
 def snapshot(sa, op, case, ret):
     return dict(structure=A.structure(sa, case), result=A.vec(ret[3]), integral=A.vec(op.integral), points=int(sa.get_total_num_points()),
+                distinct=len(set(op.f.log)),      # distinct integrand evaluations of the WHOLE run (the log is saved/restored with f)
                 errors=[A.fl(x) for x in ret[5]], surplus=[A.fl(x) for x in ret[7]], num_points=[int(x) for x in ret[6]])
 
 
@@ -129,7 +131,7 @@ def interrupted_run(case, l1, l2, save, rng, tag, cap):
     from sparseSpACE.StandardCombi import StandardCombi
     sa, op, f, eo = A.build(case)
     events = wrap_events(sa, cap)
-    r1 = A.perform(sa, eo, case, l1[0], l1[1], l1[2])
+    r1 = A.perform(sa, eo, case, l1[0], l1[1], l1[2], reevaluate_at_end=bool(case.get('reeval')))
     first = snapshot(sa, op, case, r1)
     changed, detail = reevaluation_changes(sa, op, case, r1)
     out = dict(first=first, reevaluation_changes=changed, reevaluation_detail=detail, saved=bool(save))
@@ -164,7 +166,12 @@ def impl_run(case):
     pts = [int(x) for x in rp[6]]
     l2 = case.get('l2')
     if l2 is None:
-        l2 = list(choose_limits(rng, errs, pts))
+        if case.get('reeval') and rng.random() < 0.8:
+            # re-evaluation at every stop: runs limited by max_evaluations, final limit on / just below / just above an observed count
+            j = rng.randrange(max(1, len(pts) // 2), len(pts)) if len(pts) > 1 else 0
+            l2 = [-1.0, 1, max(0, pts[j] + rng.choice([-1, -1, 0, 0, 1, 2, -3]))]
+        else:
+            l2 = list(choose_limits(rng, errs, pts))
         if not any((e <= l2[0] and p >= l2[1]) or (l2[2] is not None and p > l2[2]) for e, p in zip(errs, pts)):
             l2[2] = pts[-1] - 1
     else:
@@ -172,7 +179,7 @@ def impl_run(case):
     # uninterrupted run with the final limits
     su, opu, fu, eou = A.build(case)
     evu = wrap_events(su)
-    ru = A.perform(su, eou, case, l2[0], l2[1], l2[2])
+    ru = A.perform(su, eou, case, l2[0], l2[1], l2[2], reevaluate_at_end=bool(case.get('reeval')))
     single = snapshot(su, opu, case, ru)
     single['events'] = evu
     K = len(single['errors']) - 1
@@ -243,6 +250,12 @@ def check_case(chk, case, r, mjobs):
                                    uninterrupted=dict(result=[A.unfl(x) for x in single['result']], points=single['points']),
                                    resumed=dict(result=[A.unfl(x) for x in run['final']['result']], points=run['final']['points']),
                                    reevaluation=run['reevaluation_detail']))
+            for what, snap in (('interruption', run['first']), ('final stop', run['final'])):
+                if snap['points'] != snap['distinct']:
+                    chk.violation('oracle:points', 'point-count-differs', {'strat': case['strat'], 'reeval': bool(case.get('reeval'))}, fcase,
+                                  dict(at=what, k=run['k'], saved_and_restored=run['saved'], reported_points=snap['points'],
+                                       distinct_integrand_evaluations_whole_run=snap['distinct']))
+                    break
             if run['saved'] and run.get('restore_diffs'):
                 chk.violation('oracle:restore', 'restore-differs', {'strat': case['strat'], 'what': ','.join(run['restore_diffs'])}, fcase,
                               dict(k=run['k'], differs=run['restore_diffs']))
@@ -274,6 +287,11 @@ def check_case(chk, case, r, mjobs):
 
 
 CORPUS = [
+    # re-evaluation at every stop, max_evaluations-limited, dimension-wise with rebalancing (points leave the scheme)
+    dict(strat='dw', a=[0, 0], b=[1, 1], comps=[[[1, [2, 0]], [3, [1, 3]]]], ref=[0.7083333333333334], norm=0, boundary=True, lmin=1, lmax=2, seed=14,
+         errcalc=['scripted', 5], version=6, rebalancing=True, probe_max=70, reeval=True),
+    dict(strat='dw', a=[0, 0], b=[1, 1], comps=[[[1, [2, 0]], [3, [1, 3]]]], ref=[0.7083333333333334], norm=0, boundary=True, lmin=1, lmax=2, seed=15,
+         errcalc='lib', version=3, rebalancing=True, probe_max=70, reeval=True),
     # exemplars of the known findings
     dict(strat='es', a=[0, 0], b=[1, 1], comps=[[[1, [2, 0]], [3, [1, 3]]]], ref=[0.7083333333333334], norm=0, boundary=True, lmin=1, lmax=2, seed=11,
          errcalc='lib', nrbe=1, auto=False, probe_max=100, l2=[-1.0, 1, 60]),
@@ -286,12 +304,12 @@ CORPUS = [
 
 def run(chk):
     chk.coq_obligations()
-    n = chk.n(28, 1500)
+    n = chk.n(44, 1500)
     cases = CORPUS + [gen_case(chk.rng, chk.quick) for _ in range(n)]
     impl = run_impl(impl_run, cases, limit=150)
     mjobs, todo, keys, samples = [], [], [], []
     for c, (st, r) in zip(cases, impl):
-        chk.count('strat=' + c['strat']); chk.count('ref=' + ('none' if c['ref'] is None else 'given'))
+        chk.count('strat=' + c['strat']); chk.count('ref=' + ('none' if c['ref'] is None else 'given')); chk.count('reevaluate_at_end=%s' % bool(c.get('reeval')))
         if st != 'ok':
             where = r[1] if r else ''
             if st == 'exc' and 'spatiallyAdaptiveBase.py' not in where and 'StandardCombi.py' not in where:
@@ -300,12 +318,15 @@ def run(chk):
             chk.violation('corr:C14/resume', 'impl-exception', {'strat': c['strat'], 'exc': r[0] if r else st}, c, dict(impl=str(r)))
             continue
         todo.append(check_case(chk, c, r, mjobs))
+        if r['single']['points'] != r['single']['distinct']:
+            chk.violation('oracle:points', 'point-count-differs', {'strat': c['strat'], 'reeval': bool(c.get('reeval'))}, dict(c, l2=r['l2'], ks=[]),
+                          dict(at='uninterrupted run', reported_points=r['single']['points'], distinct_integrand_evaluations_whole_run=r['single']['distinct']))
         K = len(r['single']['errors']) - 1
         chk.count('uninterrupted-evaluations=%s' % (K + 1 if K < 6 else '7+'))
         chk.count('interruptions', len(r['runs'])); chk.count('with-save-restore', sum(1 for x in r['runs'] if x['saved']))
         for run_ in r['runs']:
             if K >= 1:
-                keys.append((c['strat'], str(c['comps']), str(r['l2']), run_['k'], run_['saved'], str(c.get('errcalc')), c.get('version'), str(c['ref'])))
+                keys.append((c['strat'], bool(c.get('reeval')), str(c['comps']), str(r['l2']), run_['k'], run_['saved'], str(c.get('errcalc')), c.get('version'), str(c['ref'])))
         if len(samples) < 3 and K >= 2:
             samples.append(dict(strat=c['strat'], l2=[A.unfl(r['l2'][0])] + r['l2'][1:], uninterrupted_points=r['single']['num_points'],
                                 interruptions=[dict(k=x['k'], saved=x['saved'], final_points=x['final']['points'],
